@@ -1,4 +1,4 @@
-import XixiKV.Proofs.CrashHistoryRun
+import XixiKV.Proofs.CrashHistoryDurable
 import XixiKV.Properties.C13
 /-!
 # C03 / C04 at the level of acknowledged MUTATIONS
@@ -40,26 +40,44 @@ the process), the data directory a power-failure image (`Restart.CrashImage`: ev
 somewhere between its flushed prefix and its size), no merge directory pending.  `OnlyLastCut` is
 NOT assumed: it is derived from the durability invariant `DInv`, which every call keeps.
 
+## Side conditions
+
+`AOpOK` (key + value ≤ 2^27 bytes, batch ids < 2^63) for every call, and the batch-id condition
+`IdsOK` (decidable, evaluated along the run): the id given to `NewBatch` is non-zero and is not the
+id of an ABANDONED batch — one that was dropped, or replaced by another `NewBatch`, after
+`flushStagedAndUpdateFile` had written some of its records (orphans that a later sealing record
+with the same id would wrongly revive).  Reusing the id of a committed batch is allowed.
+`FreshIds` (pairwise distinct, non-zero) implies it (`idsOK_of_freshIds`).
+
 ## Results
 
-* `C03_history_prefix`: fresh database, any history with the size side conditions and fresh batch
-  ids, ANY point of the history (also with a batch open and partly flushed), any crash image:
-  `Open` (any valid configuration) succeeds and exposes `specOfUnits (units.take j)`;
+* `C03_history_prefix`: fresh database, any history with the side conditions, ANY point of the
+  history (also with a batch open and partly flushed), any crash image: `Open` (any valid
+  configuration) succeeds and exposes `specOfUnits (units.take j)`;
   (a) `j = units.length` when no byte was lost; (b) `j ≥ n` for every `n` with `Durable s n`
-  (the first `n` units end inside the flushed prefixes of their files).
+  (at least `n` units end inside the flushed prefixes of their files).
 * `C03_history_prefix_from`: the same from ANY state with an open handle without batch object
   whose files match a ghost directory `g₀` (`Files`; every `Inv` state) and which satisfies `DInv`:
-  the units are `unitsOfLog (logOf g₀) ++ unitsOf s₀ ops`; the recovered handle satisfies `Inv`
-  for a ghost directory denoting exactly the surviving units — so histories with earlier crashes
-  and restarts compose.
+  the units are `unitsOfLog (logOf g₀) ++ unitsOf s₀ ops`.
 * `C03_history_flushed`, `C03_history_always`, `C03_history_always_plain`,
   `C03_history_after_sync`: everything acknowledged survives a power failure when every file is
   flushed — after a `Put` / tombstone-writing `Delete` under `SyncStrategy Always`, at every point
   of a history of plain operations under `Always`, after `Sync()`.
+* `C03_history_synced_prefix`, `C03_history_before_sync`: what was flushed stays flushed — every
+  mutation acknowledged before a point at which all files were flushed (e.g. before a `Sync()`)
+  survives EVERY later crash, whatever calls follow (`Durable_arun`).
 * `C04_history_atomic`: a committed batch is ONE unit of the prefix: after any crash either none
   of its operations (and nothing acknowledged later) or all of them, in order, are visible.
 * `C04_history_sync_durable`: after `Commit` of a batch created with `Sync` returned, every crash
   image exposes everything acknowledged so far, the batch included.
+* Composition (`Good`, `C03_history_epoch`, `C03_history_epochs`, `C03_history_clean_restart`):
+  the recovered state is "quiescent" again (engine invariant, durability invariant — for crash
+  images with sane flush marks, `SaneMarks` —, batch ids accounted for), so the theorem applies to
+  any number of epochs history–crash–`Open`; `Close` + `Open` is the special case of a crash that
+  loses nothing, also when a batch is open, partly flushed or abandoned at `Close`.
+* Non-vacuity: `C03_history_applicable`, `epoch_applicable` (the hypotheses hold for EVERY history
+  and a family of crash images), a concrete history with a batch flushed in three pieces over
+  three files, and evaluated recovered mappings (`#guard`).
 -/
 namespace XixiKV.C03H
 open XixiKV XixiKV.Frame XixiKV.Record XixiKV.Index XixiKV.Engine XixiKV.Engine.Restart
@@ -197,7 +215,10 @@ theorem durable_of_allSynced {L : Nat} {cfg : Cfg} {dir : String} {s : St} {h : 
     (hr : RunInv L cfg dir s h used) (hall : ∀ db, s.db = some db → AllSynced s db) :
     Durable s h.units.length := by
   obtain ⟨db, g, hi⟩ := hr.hinv
-  have := Durable_all hi.open_ hi.files (hall db hi.open_)
+  obtain ⟨db1, e1, hdinv, _, _⟩ := hr.dur
+  rw [hi.open_] at e1
+  cases e1
+  have := Durable_all hi.open_ hi.files hdinv (hall db hi.open_)
   rwa [hi.units] at this
 
 /-- **everything flushed ⇒ everything acknowledged survives a power failure**: if in the state a
@@ -319,6 +340,80 @@ theorem C03_history_after_sync (dir : String) (cfg cfg' : Cfg) (hcfg : cfg.Valid
   have hdb' : (syncDB (arun (openDB St.init dir cfg).1 pre)).1.db = some db := hdb
   rw [e2] at hdb'; cases hdb'
   exact e4
+
+/-! ## what was flushed stays flushed -/
+
+theorem IdsOK_append (a b : List AOp) : ∀ (s : St) (h : Hist), IdsOK s h (a ++ b) →
+    IdsOK s h a ∧ IdsOK (arun s a) (hrun s h a) b := by
+  induction a with
+  | nil => intro s h hi; exact ⟨trivial, hi⟩
+  | cons op t ih =>
+    intro s h hi
+    obtain ⟨h1, h2⟩ := hi
+    obtain ⟨i1, i2⟩ := ih _ _ h2
+    exact ⟨⟨h1, i1⟩, i2⟩
+
+/-- the units of a prefix of a history are a prefix of the units of the history -/
+theorem unitsOf_prefix (s : St) (a b : List AOp) : unitsOf s a <+: unitsOf s (a ++ b) := by
+  unfold unitsOf
+  rw [hrun_append]
+  cases hh : hrun s ⟨[], [], []⟩ a with
+  | mk u fl dy =>
+    rw [hrun_units b (arun s a) u fl dy]
+    exact List.prefix_append _ _
+
+/-- **what was flushed stays**: if at the point `pre` of a history every data file is completely
+    flushed — after `Sync()`, after a `Put` / `Delete` under `Always`, after the `Commit` of a
+    `Sync` batch, … —, then every mutation acknowledged up to that point survives EVERY later crash,
+    whatever calls follow (`post`): the surviving prefix has at least `(unitsOf s pre).length`
+    units (and `unitsOf s pre` is a prefix of `unitsOf s (pre ++ post)`, `unitsOf_prefix`). -/
+theorem C03_history_synced_prefix (dir : String) (cfg cfg' : Cfg) (hcfg : cfg.Valid) (hcfg' : cfg'.Valid)
+    (pre post : List AOp) (hok : ∀ op ∈ pre ++ post, AOpOK op)
+    (hids : IdsOK (openDB St.init dir cfg).1 h0 (pre ++ post))
+    (hall : ∀ db, (arun (openDB St.init dir cfg).1 pre).db = some db →
+      AllSynced (arun (openDB St.init dir cfg).1 pre) db)
+    (sc : St) (d dc : DirSt) (hcr : Crashed (arun (openDB St.init dir cfg).1 (pre ++ post)) sc dir d dc) :
+    ∃ s' db' j, openDB sc dir cfg' = (s', .ok) ∧ s'.db = some db' ∧
+      (unitsOf (openDB St.init dir cfg).1 pre).length ≤ j ∧
+      j ≤ (unitsOf (openDB St.init dir cfg).1 (pre ++ post)).length ∧
+      ∀ k, absGet s' db' k = specOfUnits ((unitsOf (openDB St.init dir cfg).1 (pre ++ post)).take j) k := by
+  obtain ⟨s', db', j, h1, h2, h3, h4, _, h6⟩ :=
+    C03_history_prefix dir cfg cfg' hcfg hcfg' (pre ++ post) hok hids sc d dc hcr
+  refine ⟨s', db', j, h1, h2, h6 _ ?_, h3, h4⟩
+  obtain ⟨e0, e1, e2, e3, e4, e5⟩ := fresh_start dir cfg hcfg
+  have hokpre : ∀ op ∈ pre, AOpOK op := fun op h => hok op (List.mem_append_left _ h)
+  have hokpost : ∀ op ∈ post, AOpOK op := fun op h => hok op (List.mem_append_right _ h)
+  obtain ⟨L, h, hr, hu⟩ := history_state (freshSt dir cfg) (freshDB dir cfg) [(0, [])] pre [] [] e1 e2 rfl e3
+    (by rw [e5]; intro i hi; exact hi) (by intro x hx; simp [logOf] at hx) hokpre
+    (by rw [← e0]; exact (IdsOK_append pre post _ _ hids).1)
+  rw [e4, List.nil_append, ← e0] at hu
+  rw [← e0] at hr
+  have hdur := durable_of_allSynced hr hall
+  rw [hu] at hdur
+  rw [arun_append]
+  exact Durable_arun post hr.size hr.dur hdur hokpost
+
+/-- **every mutation acknowledged before a `Sync()` survives every later crash** -/
+theorem C03_history_before_sync (dir : String) (cfg cfg' : Cfg) (hcfg : cfg.Valid) (hcfg' : cfg'.Valid)
+    (pre post : List AOp) (hok : ∀ op ∈ (pre ++ [.sync]) ++ post, AOpOK op)
+    (hids : IdsOK (openDB St.init dir cfg).1 h0 ((pre ++ [.sync]) ++ post))
+    (sc : St) (d dc : DirSt)
+    (hcr : Crashed (arun (openDB St.init dir cfg).1 ((pre ++ [.sync]) ++ post)) sc dir d dc) :
+    ∃ s' db' j, openDB sc dir cfg' = (s', .ok) ∧ s'.db = some db' ∧
+      (unitsOf (openDB St.init dir cfg).1 pre).length ≤ j ∧
+      j ≤ (unitsOf (openDB St.init dir cfg).1 ((pre ++ [.sync]) ++ post)).length ∧
+      ∀ k, absGet s' db' k
+        = specOfUnits ((unitsOf (openDB St.init dir cfg).1 ((pre ++ [.sync]) ++ post)).take j) k := by
+  obtain ⟨s', db', j, h1, h2, h3, h4, h5⟩ :=
+    C03_history_synced_prefix dir cfg cfg' hcfg hcfg' (pre ++ [.sync]) post hok hids (by
+      obtain ⟨db1, hs1, hd1, _, _⟩ := history_handle dir cfg hcfg pre
+      rw [arun_append]
+      intro db hdb
+      obtain ⟨_, e2, _, e4⟩ := syncDB_dur hs1 hd1
+      have hdb' : (syncDB (arun (openDB St.init dir cfg).1 pre)).1.db = some db := hdb
+      rw [e2] at hdb'; cases hdb'
+      exact e4) sc d dc hcr
+  exact ⟨s', db', j, h1, h2, Nat.le_trans (unitsOf_prefix _ pre [.sync]).length_le h3, h4, h5⟩
 
 /-! ## C04 for histories -/
 
@@ -825,6 +920,13 @@ private def recovered (m n : Nat) : List (String × String) := dump (openDB (cra
 #guard !(IdsOK (openDB St.init "d" demoCfg).1 h0
   (demoOps.take 6 ++ [.bdrop, .bnew false 77]) : Bool)
 
+-- what was flushed stays: `a` is acknowledged before `Sync()`, `b` and `c` after it (policy No):
+-- whatever is lost later, `a` survives
+#guard [0, 5, 13, 14, 26, 1000].map (fun n =>
+    dump (openDB (crashOf (arun (openDB St.init "d" demoCfg).1
+      [.put (K "a") (K "1"), .sync, .put (K "b") (K "2"), .put (K "c") (K "3")]) "d" n) "d" cfg2).1)
+  == [[("a", "1"), ("b", "2"), ("c", "3")], [("a", "1"), ("b", "2")], [("a", "1"), ("b", "2")],
+      [("a", "1")], [("a", "1")], [("a", "1")]]
 -- two epochs: the first crash tears the sealing record of batch 77 (its two synced pieces stay on
 -- disk as orphans), the second history commits a Sync batch 78 and deletes `z`
 #guard dump (erun "d" (openDB St.init "d" demoCfg).1 (demoEpochs 0)) == [("base", "B"), ("a", "9")]
@@ -864,5 +966,9 @@ info: 'XixiKV.C03H.C03_history_epochs' depends on axioms: [propext, Classical.ch
 info: 'XixiKV.C03H.C03_history_clean_restart' depends on axioms: [propext, Classical.choice, Quot.sound]
 -/
 #guard_msgs in #print axioms C03_history_clean_restart
+/--
+info: 'XixiKV.C03H.C03_history_before_sync' depends on axioms: [propext, Classical.choice, Quot.sound]
+-/
+#guard_msgs in #print axioms C03_history_before_sync
 
 end XixiKV.C03H
